@@ -10,6 +10,9 @@ Monitors (oracles at the API boundary, reference = vmon/refs/{ec,rfc6979,ecdsa}.
   recovery                 every returned key reference-verifies; signer present when x(R) < n (also for the (r, n-s)
                            twin, for z = r*d, and when the other candidate is the point at infinity); y_parity selects R
   Key.sign / Key.verify    the DER layer on top
+  structured multipliers   (round 5) hand-built valid signatures whose r/s, z/s (verification) or s/r, -z/r (recovery) is a scalar
+                           with non-random bits: t or 3t next to a power of two (either side), repeating patterns, runs of
+                           ones, the same counted down from n, halves / thirds of n; and such scalars as private keys
 on secp256k1 / secp256r1 (OpenSSL worker, PYCOIN_NATIVE=none worker, in-process pure Generator) and exhaustively on
 toy curves; plus the valgrind memcheck leg over the ctypes/libcrypto path.
 
@@ -51,7 +54,12 @@ RULE = ("a case is one monitored call: a signing event (curve, configuration, d,
         "returned list; every 7th family one signing / verification / recovery on the other production generator. Long run: keys "
         "d -> d + stride (1, 2^64, 2^128, 2^255, n - 1) from a random start, > 2^16 + 100 multiplications on one object. Twins: "
         "per round one key index and one hash put to each of five equal-by-value generators in shuffled order, then one (z, r, s) "
-        "triple to each. Toy curves: every d, z over "
+        "triple to each. Structured multipliers: a fixed pool of scalars t (t or 3t within a few units of 2^j on either side, "
+        "0x33.. / 0x0f.. patterns, ones-then-zeros, n - t, halves and thirds of n; quick: 11 bit lengths j up to 257, ~216 per "
+        "curve, thorough: every j) is dealt out over the 256-bit shards so that every run covers all of it on the pure and on the "
+        "OpenSSL arithmetic; for each t a hand-built valid signature of a random key with r/s = t (key multiplied by t; on the pure "
+        "arithmetic always for the t next to a power of two, the rest in rotation), and in rotation z/s = t, s/r = t, -z/r = t "
+        "and signing with d = t. Toy curves: every d, z over "
         "every residue and every top-bit pattern, every (r, s) in [0, n+1]^2. Distinct by (kind, curve, configuration, "
         "operands); all counted cases are non-trivial (none is a fixed vector of the repository's suite except d=z=1).")
 ASSUMPTIONS = [
@@ -92,13 +100,19 @@ ASSUMPTIONS = [
     "OpenSSL-backed generator (0.5 ms per multiplication; 25 ms on the pure arithmetic): if that is not active the run is "
     "INCONCLUSIVE. A violated derivation d*G is reported as such because the statement's 'public key d*G' is what the "
     "library computes as d * generator",
+    "structured multipliers: the statement quantifies verification over ALL (Q, z, (r, s)), so a valid signature whose r/s, z/s, "
+    "s/r or -z/r mod n is a chosen scalar must be accepted / must recover its signer like any other; such signatures are built "
+    "from the signing equation with a chosen nonce (s = (z + r d)/k re-checked, the promised multiplier re-checked and the "
+    "reference verifier consulted before the library is asked; a failed builder is INCONCLUSIVE, not a violation). Nothing is "
+    "assumed about HOW the library multiplies: only the boolean / the returned keys are judged, by the ordinary judges",
     "twins: live generators of different curves with identical base-point coordinates are legitimate (curve families fix G by "
     "convention); the families are enumerated by brute-force point counting (prime order >= 5, p = 3 mod 4) and each member is "
     "re-validated in the shard (failure -> inconclusive)",
 ]
 EXPLANATION = ("every signing, verification, recovery and Key-layer call on the real library is compared with the reference; "
                "toy curves are swept exhaustively in-process with the pure Generator; 256-bit curves run in three "
-               "configurations; memcheck counts error blocks with libcrypto/ctypes frames")
+               "configurations, each of which is also given valid signatures whose verification / recovery multipliers are "
+               "bit-structured scalars no signer produces by chance; memcheck counts error blocks with libcrypto/ctypes frames")
 TIMEOUT = {"quick": 600, "thorough": 3 * 3600}
 NONE_ENV = {"PYCOIN_NATIVE": "none"}
 
@@ -200,6 +214,15 @@ def plan(tier, seed):
             shards.append({"kind": "twins", "G": list(G), "curves": 8, "rounds": 600, "label": "twins G=%r" % (G,)})
         # long shards first so the tail is short
         shards.sort(key=lambda s: SHARD_ORDER[s["kind"]])
+    # the pool of bit-structured multipliers (structured_scalars) is dealt out over the shards of one (curve, arithmetic) group:
+    # every run drives the WHOLE pool on the pure arithmetic and on the OpenSSL one, whatever the seed
+    groups = {}
+    for sh in shards:
+        if sh["kind"] == "big":
+            groups.setdefault((sh["curve"], bool(sh.get("env")) or sh["gen"] == "inproc"), []).append(sh)
+    for members in groups.values():
+        for k, sh in enumerate(members):
+            sh["sslice"] = [k, len(members)]
     return shards
 
 
@@ -1054,6 +1077,129 @@ def special_cases(ctx, rng, d, Q, i, lite=False):
                                              label="other_candidate_is_infinity"))
 
 
+STRUCT_J_QUICK = (257, 256, 255, 192, 129, 128, 65, 64, 54, 53, 32)
+STRUCT_CORE = frozenset(("3t=2^j-(1|2)", "3t=2^j-(4|5)", "3t=2^j+(1|2)", "3t=2^j+(4|5)", "t=2^j-1", "t=2^j", "t=2^j+1"))
+STRUCT_MODES = ("u2", "u1", "s_over_r", "z_over_r")
+REQUIRED_STRUCT = ("verify.valid_structured_u2", "verify.valid_structured_u1", "recover.structured_s_over_r",
+                   "recover.structured_z_over_r", "sign.structured_key")
+
+
+def structured_scalars(n, tier):
+    """[(form, t)] with 0 < t < n: scalars whose binary expansion is anything but random - t, or 3t (what a NAF ladder
+    walks), within a few units of a power of two ON EITHER SIDE, repeating bit patterns, runs of ones, the same counted
+    down from the group order, and the halves / thirds of the order. A uniformly random 256-bit scalar is never one of
+    them, so no signature made by a signer ever multiplies a key by one; a hand-built valid signature can."""
+    L = n.bit_length()
+    js = range(3, L + 2) if tier != "quick" else [j for j in STRUCT_J_QUICK if j <= L + 1]
+    out, seen = [], set()
+
+    def put(form, t, neg=True):
+        for f, v in ((form, t), ("n-(" + form + ")", n - t)) if neg else ((form, t),):
+            if 0 < v < n and v not in seen:
+                seen.add(v)
+                out.append((f, v))
+    for j in js:
+        P2 = 1 << j
+        lo = (P2 - 1) // 3                      # 0x55..55 / 0x2a..aa: 3t = 2^j - 1 or 2^j - 2
+        hi = (P2 + 2) // 3                      # 3t = 2^j + 1 or 2^j + 2
+        put("3t=2^j-(1|2)", lo)
+        put("3t=2^j-(4|5)", lo - 1)
+        put("3t=2^j+(1|2)", hi)
+        put("3t=2^j+(4|5)", hi + 1)
+        put("t=2^j-1", P2 - 1)
+        put("t=2^j", P2)
+        put("t=2^j+1", P2 + 1)
+        put("t=ones_then_zeros", P2 - (1 << (j // 2)))
+        put("t=0x33..33", (P2 - 1) // 5)
+        put("t=0x0f..0f", (P2 - 1) // 17)
+    for form, t in (("t=1", 1), ("t=2", 2), ("t=3", 3), ("t=(n-1)/2", (n - 1) // 2), ("t=(n+1)/2", (n + 1) // 2),
+                    ("t=n//3", n // 3), ("t=n//3+1", n // 3 + 1), ("t=2n//3", 2 * n // 3), ("t=2n//3+1", 2 * n // 3 + 1),
+                    ("t=1/3", pow(3, -1, n))):
+        put(form, t)
+    return out
+
+
+def structured_cases(ctx, rng, spec, want_pure):
+    """hand-built VALID signatures (key d, nonce k, R = kG, r = x(R) mod n, s = (z + r d)/k) in which one of the scalars the
+    verifier / the recovery multiplies a point by is a chosen structured value t (structured_scalars):
+       u2       r/s = t    verification multiplies the KEY by t           s = r/t,        z = s k - r d
+       u1       z/s = t    verification multiplies G by t                 s = r d/(k-t),  z = t s
+       s_over_r s/r = t    recovery multiplies the nonce point by t       s = r t,        z = s k - r d
+       z_over_r -z/r = t   recovery multiplies G by t                     z = -t r,       s = (z + r d)/k
+    and signing with d = t itself (public key t*G). Judged by the ordinary judges: verification must accept, recovery must
+    return d*G (x(R) < n), the signature of key t must be the RFC 6979 one."""
+    rec, c = ctx.rec, ctx.c
+    n = c.n
+    rec.require(*REQUIRED_STRUCT)
+    rec.require("structured.u2:%s/%s" % (spec["curve"], "pure" if want_pure else "openssl"))
+    pool = structured_scalars(n, spec["tier"])
+    k0, K = spec.get("sslice") or [0, 1]
+    mine = list(enumerate(pool))[k0::K]
+    seed = int(spec["seed"])
+    d = rng.randrange(1, n)
+    Q = c.mul(d, c.G)
+    for idx, (form, t) in mine:
+        other = STRUCT_MODES[1 + (idx + seed) % 3]
+        if spec["tier"] != "quick":
+            modes = ("u2", other) if want_pure else STRUCT_MODES
+        elif want_pure:
+            # ~25 ms per multiplication. Every run, whatever the seed: the key multiplied by each t that is (or whose triple
+            # is) next to a power of two; the other forms and the other three multipliers in rotation (the seed moves it)
+            core = form in STRUCT_CORE
+            turn = (idx + seed) % 4 == 0
+            modes = (("u2",) if core or turn else ()) + ((other,) if (idx + seed) % 4 == 1 else ())
+        else:
+            modes = ("u2", other) + ((STRUCT_MODES[1 + (idx + seed + 1) % 3],) if idx % 2 else ())
+        if not modes:
+            continue
+        if idx % 16 == 15:
+            d = rng.randrange(1, n)
+            Q = c.mul(d, c.G)
+        rec.ev("structured.form:" + form)
+        for mode in modes:
+            k = rng.randrange(1, n)
+            R = c.mul(k, c.G)
+            r = R[0] % n
+            if r == 0 or (k - t) % n == 0:
+                continue
+            if mode == "u2":
+                s = r * pow(t, -1, n) % n
+                z = (s * k - r * d) % n
+            elif mode == "u1":
+                s = r * d * pow(k - t, -1, n) % n
+                z = t * s % n
+            elif mode == "s_over_r":
+                s = r * t % n
+                z = (s * k - r * d) % n
+            else:
+                z = -t * r % n
+                s = pow(k, -1, n) * (z + r * d) % n
+            if z == 0 or s == 0:
+                rec.ev("structured.degenerate_skipped(tallied)")
+                continue
+            si = pow(s, -1, n)
+            got_t = {"u2": r * si % n, "u1": z * si % n, "s_over_r": s * pow(r, -1, n) % n, "z_over_r": -z * pow(r, -1, n) % n}[mode]
+            if got_t != t or not RE.verify(c, Q, z, r, s) or s != pow(k, -1, n) * (z + r * d) % n:
+                rec.ev("inconclusive:structured_builder")
+                rec.note("structured_cases built something that is not a valid signature with the promised multiplier: %r" % ((mode, form, t),))
+                continue
+            if (idx // 2) % 4 == 3 and z + n < (1 << 256):
+                z += n                               # the same hash class, spelled z + n
+            if mode in ("u2", "u1"):
+                judge_verify(ctx, base_case(ctx, "verify", Q=list(Q), z=z, r=r, s=s, label="valid_structured_" + mode,
+                                            as_point=bool(idx % 3 == 0), structured=[mode, form]))
+                if mode == "u2":
+                    rec.ev("structured.u2:%s/%s" % (spec["curve"], "openssl" if ctx.native_mul else "pure"))
+            else:
+                judge_recover(ctx, base_case(ctx, "recover", z=z, r=r, s=s, y_parity=[None, R[1] & 1][idx % 2],
+                                             from_recid=[None, "same"][idx % 2], signer=list(Q), R=list(R),
+                                             label="structured_" + mode, structured=[mode, form]))
+        # the structured value as the private key: d*G and r*d with d = t
+        if idx % (4 if not want_pure else 16) == seed % 4:
+            rec.ev("sign.structured_key")
+            judge_sign(ctx, base_case(ctx, "sign", d=t, z=rng.randrange(1, 1 << 256), structured=["key", form]))
+
+
 def run_big(spec, rec):
     import pycoin.ecdsa.native.secp256k1 as NS
     ctx = get_ctx(spec["curve"], spec["gen"], rec)
@@ -1195,6 +1341,9 @@ def run_big(spec, rec):
         if i < 2:
             rec.sample({"config": spec.get("label"), "event": "sign", "d": d, "z": z, "r": r, "s": s, "k": sg["k"],
                         "forgeries_checked": [f[0] for f in fs]})
+    # valid signatures whose verification / recovery multipliers are bit-structured scalars (never met by chance)
+    errpath(ctx, follow=not want_pure)
+    structured_cases(ctx, rng, spec, want_pure)
 
 
 def _rs_grid(c, rng, full, d, e, extra=24):
